@@ -1326,6 +1326,68 @@ impl Gen {
         self.tx("alice", SMsg::FmClaim(None), vec![]);
     }
 
+    /// identifiers meeting objects of the same or a related name: the same explicit farm identifier on two LP denoms by
+    /// different owners (and on the same one), explicit position identifiers reused by another user, positions addressed
+    /// by their bare (un-prefixed) name or by the other prefix, explicit names that look like generated ones, the same
+    /// pool identifier for both pool types; then the closes / withdrawals / refunds by each party
+    fn probe_identifier_namespaces(&mut self) {
+        let Some(p) = self.mk_pool("a", &[("uom", 6), ("uusd", 6)], None, Self::std_fees()) else { return; };
+        let Some(q) = self.mk_pool("b", &[("uusdc", 6), ("uusd", 6)], None, Self::std_fees()) else { return; };
+        // the same identifiers again, for either pool type, and names that look like generated ones
+        self.mk_pool("a", &[("uusdc", 6), ("uom", 6)], None, Self::std_fees());
+        self.mk_pool("b", &[("uusdc", 6), ("uom", 6)], Some(100), Self::std_fees());
+        self.mk_pool("1", &[("ubtc", 8), ("uom", 6)], None, Self::std_fees());
+        let (lp, lq) = (self.lp_of(&p), self.lp_of(&q));
+        for u in ["alice", "bob", "carol"] {
+            self.plain_provide(u, &p, vec![("uom".into(), 1_000_000_000), ("uusd".into(), 1_000_000_000)], None);
+            self.plain_provide(u, &q, vec![("uusdc".into(), 1_000_000_000), ("uusd".into(), 1_000_000_000)], None);
+        }
+        let k = 1 + self.rng.below(4) as u128;
+        // farms: one name, two LP denoms, two owners
+        self.mk_farm("alice", &lp, "uusdc", 500 * k, 8, Some("farm".into()), 1);
+        self.mk_farm("bob", &lq, "uom", 1000 * k, 8, Some("farm".into()), 1);
+        self.mk_farm("bob", &lp, "uom", 1000 * k, 8, Some("farm".into()), 1);
+        self.mk_farm("bob", &lq, "uom", 1000 * k, 8, Some("m-farm".into()), 1);
+        self.mk_farm("carol", &lq, "uom", 700 * k, 8, None, 1);
+        self.mk_farm("carol", &lq, "uom", 700 * k, 8, Some("1".into()), 1);
+        // positions: one name, two users; bare names, the other prefix, names that look like generated ones
+        self.tx("alice", SMsg::FmPosCreate { id: Some("vault".into()), dur: DAY, receiver: None }, vec![(lp.clone(), 10_000 * k)]);
+        self.tx("bob", SMsg::FmPosCreate { id: None, dur: DAY, receiver: None }, vec![(lp.clone(), 10_000 * k)]);
+        self.tx("bob", SMsg::FmPosCreate { id: Some("vault".into()), dur: DAY, receiver: None }, vec![(lp.clone(), 5_000)]);
+        self.tx("bob", SMsg::FmPosCreate { id: Some("u-vault".into()), dur: DAY, receiver: None }, vec![(lq.clone(), 5_000)]);
+        self.tx("carol", SMsg::FmPosCreate { id: Some("p-1".into()), dur: DAY, receiver: None }, vec![(lq.clone(), 5_000)]);
+        self.tx("carol", SMsg::FmPosCreate { id: Some("1".into()), dur: DAY, receiver: None }, vec![(lq.clone(), 5_000)]);
+        self.tx("carol", SMsg::FmPosCreate { id: None, dur: DAY, receiver: None }, vec![(lq.clone(), 5_000)]);
+        self.tx("alice", SMsg::PmProvide { liq_slip: None, swap_slip: None, receiver: None, pool: p.clone(), unlock: Some(DAY), lock_id: Some("vault".into()) }, vec![("uom".into(), 50_000), ("uusd".into(), 50_000)]);
+        self.tx("alice", SMsg::PmProvide { liq_slip: None, swap_slip: None, receiver: None, pool: p.clone(), unlock: Some(DAY), lock_id: Some("u-vault".into()) }, vec![("uom".into(), 50_000), ("uusd".into(), 50_000)]);
+        self.tx("bob", SMsg::PmProvide { liq_slip: None, swap_slip: None, receiver: None, pool: p.clone(), unlock: Some(DAY), lock_id: Some("vault".into()) }, vec![("uom".into(), 50_000), ("uusd".into(), 50_000)]);
+        self.tx("alice", SMsg::FmPosExpand("vault".into()), vec![(lp.clone(), 100)]);
+        self.tx("alice", SMsg::FmPosExpand("u-vault".into()), vec![(lp.clone(), 100)]);
+        self.next_epoch();
+        self.next_epoch();
+        for u in ["alice", "bob", "carol"] { self.q_rewards(u, None); self.tx(u, SMsg::FmClaim(None), vec![]); }
+        self.tx("alice", SMsg::FmPosClose("vault".into(), None), vec![]);
+        self.tx("alice", SMsg::FmPosClose("p-vault".into(), None), vec![]);
+        self.tx("alice", SMsg::FmPosClose("u-vault".into(), None), vec![]);
+        self.tx("bob", SMsg::FmPosClose("1".into(), None), vec![]);
+        self.tx("bob", SMsg::FmPosClose("p-1".into(), None), vec![]);
+        self.advance(DAY + 1);
+        for _ in 0..2 { self.tx("alice", SMsg::FmPosWithdraw("vault".into(), None), vec![]); }
+        self.tx("alice", SMsg::FmPosWithdraw("u-vault".into(), None), vec![]);
+        self.tx("alice", SMsg::FmPosWithdraw("u-vault".into(), None), vec![]);
+        self.tx("bob", SMsg::FmPosWithdraw("1".into(), None), vec![]);
+        self.tx("bob", SMsg::FmPosWithdraw("p-1".into(), None), vec![]);
+        self.tx("carol", SMsg::FmPosWithdraw("u-p-1".into(), Some(true)), vec![]);
+        // the farms again: each owner closes under the shared name; the other must not be able to
+        self.tx("bob", SMsg::FmCloseFarm("m-farm".into()), vec![]);
+        self.tx("alice", SMsg::FmCloseFarm("farm".into()), vec![]);
+        self.tx("alice", SMsg::FmCloseFarm("m-farm".into()), vec![]);
+        self.tx("bob", SMsg::FmCloseFarm("m-m-farm".into()), vec![]);
+        self.tx("carol", SMsg::FmCloseFarm("f-1".into()), vec![]);
+        self.tx("carol", SMsg::FmCloseFarm("m-1".into()), vec![]);
+        for u in ["alice", "bob", "carol"] { self.q_rewards(u, None); self.tx(u, SMsg::FmClaim(None), vec![]); }
+    }
+
     /// a farm driven to (and past) the end of its budget: a user's weight inflated by the until_epoch synchronisation
     /// (finding F-until) makes a multi-epoch claim whose sum exceeds the remainder while no single epoch does; then the
     /// other stakers' claims, a closing of the farm and the withdrawals
@@ -1537,7 +1599,7 @@ pub fn generate_probes(seed: u64, count: usize) -> Family {
         "From MD.Model Require Import Base Ownable Epoch PoolMath Types PoolManager FarmManager Chain CasesChain.",
         "chain_case",
         "run_chain_case",
-        "deterministic probe scripts, one per narrow situation (asset order after a slippage-protected deposit, foreign lock identifiers, malformed route junctions, extra fees, all feature-switch combinations, single-asset corner cases, farm funds in the fee denom, expiry windows, penalty sharing, thirds, position limit, empty claims, fractional weights, failing refunds, huge and unusual decimals, every position operation against every position state, a farm driven past the end of its budget); amounts vary with the PRNG; full canonical snapshot compared after every operation",
+        "deterministic probe scripts, one per narrow situation (asset order after a slippage-protected deposit, foreign lock identifiers, malformed route junctions, extra fees, all feature-switch combinations, single-asset corner cases, farm funds in the fee denom, expiry windows, penalty sharing, thirds, position limit, empty claims, fractional weights, failing refunds, huge and unusual decimals, every position operation against every position state, a farm driven past the end of its budget, identifiers meeting objects of the same or a related name); amounts vary with the PRNG; full canonical snapshot compared after every operation",
     );
     type F = fn(&mut Gen);
     let list: Vec<(&str, F)> = vec![
@@ -1546,7 +1608,7 @@ pub fn generate_probes(seed: u64, count: usize) -> Family {
         ("farm-funds", Gen::probe_farm_funds as F), ("expiry-window", Gen::probe_expiry_window as F), ("penalty-split", Gen::probe_penalty_split as F),
         ("thirds", Gen::probe_thirds as F), ("position-limit", Gen::probe_position_limit as F), ("empty-claims", Gen::probe_empty_claims as F),
         ("fractional-weights", Gen::probe_fractional_weights as F), ("failing-refunds", Gen::probe_failing_refunds as F), ("big-and-decimals", Gen::probe_big_and_decimals as F),
-        ("position-states", Gen::probe_position_states as F), ("exhaustion", Gen::probe_exhaustion as F),
+        ("position-states", Gen::probe_position_states as F), ("exhaustion", Gen::probe_exhaustion as F), ("identifier-namespaces", Gen::probe_identifier_namespaces as F),
     ];
     let mut rng = Rng::new(seed ^ 0x9B0B);
     let mut i = 0usize;
